@@ -75,7 +75,7 @@ def remoteCase (inp impl : String) : CaseOut :=
     let tags := sortStrs ((List.range n).map fun i => s!"d{i}")
     let want := s!"unreachable={unr} dead={dead} deadtags={String.intercalate "." tags} later={later}"
     { model := want, spec := if impl = want then "ok" else s!"FAIL:C17 unreachable peer: implementation [{impl}] expected [{want}]",
-      tags := ["unreach"], nontrivial := true }
+      tags := ["unreach", if (kvNat ws "tls") = some 1 then "unreach-tls" else "unreach-plain"], nontrivial := true }
   else if kind = "abort" then
     -- the writer's connection is gone from its point of view (connLost), the router catches up, the peer accepts again
     let s0 : St := { routes := ["peer"], registered := ["peer"] }
@@ -111,6 +111,10 @@ def remoteCase (inp impl : String) : CaseOut :=
       else if op = "start2" then
         -- Start with another engine: skipped before the first start; afterwards refused and without effect
         if st = .initialized then (st, out ++ ["skip"]) else ((remoteStart st).1, out ++ ["already"])
+      -- out: a send from this node to a peer works once the remote has been started, also after it was stopped
+      -- ("Sending will work even if the remote is stopped. Receiving however, will not work.")
+      else if op = "out" then
+        if st = .initialized then (st, out ++ ["skip"]) else (st, out ++ ["sent-arrived"])
       else if op = "probe" then
         if st = .initialized then (st, out ++ ["skip"]) else (st, out ++ [if accepting st then "reached" else "lost"])
       else (st, out ++ ["?"])
